@@ -156,6 +156,25 @@ def _deriv_n(f, x, n):
   return mp.diff(f, x, n)
 
 
+def const_whole_exponent(node, at=None):
+  """n when the node is pow(X, as.constant n) with a whole-number n, else None.  (In a potable file the exponent is a
+  definition of its own, i.e. the constant wrapped in its default range '>0': seen through when `at` lies inside it.)"""
+  a = node.get("a") or []
+  if len(a) != 2:
+    return None
+  e = a[1]
+  while e.get("k") == "ranges" and len(e["parts"]) == 1 and at is not None:
+    m_, s_, sub = e["parts"][0]
+    if select_range([(m_, s_, None)], F(at)) is None:
+      return None
+    e = sub
+  if e.get("k") == "form" and e.get("name") == "constant":
+    v = e["p"][0]
+    if float(v) == int(float(v)):
+      return int(float(v))
+  return None
+
+
 def exp_spline_coeffs(fs, fe, rd, ra):
   """Reference solve of the 6x6 system for exp(B0..B5 poly)+C joining fs at rd to fe at ra."""
   sx, ex = F(rd), F(ra)
@@ -394,6 +413,13 @@ class Model(object):
         v *= self.value(a, r, at)
       return v
     if k == "pow":
+      n_ = const_whole_exponent(node, at)
+      if n_ is not None:
+        # a constant whole-number power is defined for every base (0**negative excepted)
+        base = self.value(node["a"][0], r, at)
+        if base == 0 and n_ < 0:
+          raise RefDomainError("0 ** negative")
+        return base ** n_
       vals = [self.value(a, r, at) for a in node["a"]]
       v = vals[0]
       for b in vals[1:]:
@@ -560,6 +586,12 @@ class Model(object):
         v *= self.mag(a, r, at)
       return v
     if k == "pow":
+      n_ = const_whole_exponent(node, at)
+      if n_ is not None and self.value(node["a"][0], r, at) <= 0:
+        Ma = self.mag(node["a"][0], r, at)
+        if n_ >= 0:
+          return max(mpf(1), Ma) ** n_ if n_ else mpf(1)
+        raise RefDomainError("negative whole power of a non-positive base: not judged")
       vals = [(self.value(a, r, at), self.mag(a, r, at)) for a in node["a"]]
       v, M = vals[0]
       for b, Mb in vals[1:]:
